@@ -341,6 +341,9 @@ int secp256k1_ecdsa_adaptor_recover(const secp256k1_context* ctx, unsigned char 
     ret &= secp256k1_scalar_eq(&adaptor_sigr, &r);
     /* y = s⁻¹ * s' */
     ret &= !secp256k1_scalar_is_zero(&s);
+    /* A parsed signature may have s = 0 (secp256k1_ecdsa_signature_parse_compact
+     * accepts it). Replace it by 1 so that deckey != 0 below; ret is already 0. */
+    secp256k1_scalar_cmov(&s, &secp256k1_scalar_one, secp256k1_scalar_is_zero(&s));
     secp256k1_scalar_inverse(&deckey, &s);
     secp256k1_scalar_mul(&deckey, &deckey, &sp);
 
@@ -355,9 +358,8 @@ int secp256k1_ecdsa_adaptor_recover(const secp256k1_context* ctx, unsigned char 
      * Proof:
      *     enckey_expected_ge is infinity <=> deckey = 0
      *     deckey = 0 <=> s^-1 = 0 or sp = 0
-     *     case 1: s^-1 = 0 impossible by the definition of multiplicative
-     *             inverse and because the scalar_inverse implementation
-     *             VERIFY_CHECKs that the inputs are valid scalars.
+     *     case 1: s^-1 = 0 impossible because s != 0 (a zero s was replaced
+     *             by 1 above) and by the definition of multiplicative inverse.
      *     case 2: sp = 0 impossible because ecdsa_adaptor_sig_deserialize would have already failed
      */
     secp256k1_eckey_pubkey_serialize33(&enckey_expected_ge, enckey_expected33);
